@@ -11,6 +11,7 @@ catalog store whose RPCs fail per an outcome map keyed by (method, kind, entry i
 import concurrent.futures
 import json
 import os
+import re
 import shutil
 import time
 
@@ -109,6 +110,16 @@ def mc_cfg(depth, profile, cui=True):
 def gen_cfg(depth, profile, cui=True):
     s = open(os.path.join(vf.SPEC, "AntiEntropy_gen.cfg")).read()
     return s.replace("MaxDepth = 3", "MaxDepth = %d" % depth).replace('"base"', '"%s"' % profile).replace("CUI = TRUE", "CUI = %s" % ("TRUE" if cui else "FALSE"))
+
+
+def uncovered_spec(out):
+    """sub-expressions of the specification that `-coverage 1` reports with count 0 (vf only parses whole actions)"""
+    z = set()
+    for line in out.splitlines():
+        m = re.match(r"^\s*\|*line (\d+), col (\d+) to line (\d+), col (\d+) of module (AntiEntropy\w*): 0$", line)
+        if m:
+            z.add("%s:%s:%s-%s" % (m.group(5), m.group(1), m.group(2), m.group(4)))
+    return sorted(z)
 
 
 def split_trace(path, work, chunk=12000):
@@ -268,12 +279,11 @@ def run(tier):
                           workers=min(10, vf.NCPU), coverage=coverage)
             states += r.distinct
             transitions += r.generated
-            never = [a for a in r.coverage_zero]
+            never = [a for a in r.coverage_zero] + uncovered_spec(r.out)
             cov["mc"].append({"profile": prof, "depth": depth, "distinct": r.distinct, "generated": r.generated, "wall_s": round(r.wall, 1),
                               "coverage_zero": never[:20]})
-            bad = [a for a in never if a in ("StepCmd", "StepSync", "Next", "InvNoFalseInSync", "InvConverged", "InvShape")]
-            if bad:
-                raise vf.Infra("vacuous model check: never evaluated %s" % bad)
+            if never:
+                raise vf.Infra("vacuous model check: never evaluated %s" % never[:10])
         for prof, depth in T["gen"]:
             g = vf.tlc_gen("AntiEntropyMC", "gen.cfg", files={"gen.cfg": gen_cfg(depth, prof)}, timeout=3000, heap="8g")
             behs = vf.dedup_behaviours(g.traces)
@@ -391,8 +401,10 @@ def selftest():
     """Binding demonstration: (a) the good history is accepted; (b) one corrupted recorded field is rejected;
     (c) a delegate that acknowledges a registration it did not apply (perturbed real call) is rejected."""
     ok = True
+    log = []
     rows, rej = _replay_history(GOOD, True)
     print("selftest a: good history, %d steps, rejected=%s" % (len(rows), rej))
+    log.append({"case": "good history accepted", "steps": len(rows), "rejected": rej})
     ok &= not rej
 
     def corrupt(rows):
@@ -401,9 +413,15 @@ def selftest():
             s["ins"] = True
     rows, rej = _replay_history(GOOD, True, mutate=corrupt)
     print("selftest b: InSync flag flipped in a recorded post-state -> rejected=%s" % rej)
+    log.append({"case": "recorded field corrupted: post.svcs[*].ins := true after a failed registration", "rejected": rej})
     ok &= any(line == 2 and ("NoFalseInSync" in names or "local-state" in names) for line, names in rej)
     rows, rej = _replay_history(GOOD[:1] + [GOOD[2]], True, perturb="ack-err")
     print("selftest c: servers acknowledge a registration without applying it -> rejected=%s" % rej)
+    log.append({"case": "real call perturbed: delegate acknowledges Catalog.Register without applying it", "rejected": rej})
     ok &= any("NoFalseInSync" in names and "Converged" in names for line, names in rej)
     print("selftest %s" % ("passed" if ok else "FAILED"))
+    d = os.path.join(vf.VERIF, "evidence", "selftest")
+    os.makedirs(d, exist_ok=True)
+    with open(os.path.join(d, PID + ".json"), "w") as f:
+        json.dump({"property_id": PID, "passed": bool(ok), "cases": log}, f, indent=1)
     return 0 if ok else 2
